@@ -81,7 +81,9 @@ impl<R: RealNumberInternalTrait> Number<R> {
     pub(crate) fn exact_eqv(&self, other: &Self) -> bool {
         match (self, other) {
             (Number::Integer(a), Number::Integer(b)) => a.eq(b),
-            (Number::Rational(a1, b1), Number::Rational(a2, b2)) => (a1 * b2).eq(&(b1 * a2)),
+            (Number::Rational(a1, b1), Number::Rational(a2, b2)) => {
+                (*a1 as i64 * *b2 as i64).eq(&(*b1 as i64 * *a2 as i64))
+            }
             (Number::Real(a), Number::Real(b)) => a.eq(b),
             _ => false,
         }
@@ -93,7 +95,9 @@ impl<R: RealNumberInternalTrait> PartialEq for Number<R> {
     fn eq(&self, other: &Number<R>) -> bool {
         match upcast_oprands((*self, *other)) {
             NumberBinaryOperand::Integer(a, b) => a.eq(&b),
-            NumberBinaryOperand::Rational(a1, a2, b1, b2) => (a1 * b2).eq(&(b1 * a2)),
+            NumberBinaryOperand::Rational(a1, a2, b1, b2) => {
+                (a1 as i64 * b2 as i64).eq(&(b1 as i64 * a2 as i64))
+            }
             NumberBinaryOperand::Real(a, b) => a.eq(&b),
         }
     }
@@ -103,7 +107,15 @@ impl<R: RealNumberInternalTrait> PartialOrd for Number<R> {
     fn partial_cmp(&self, other: &Number<R>) -> Option<Ordering> {
         match upcast_oprands((*self, *other)) {
             NumberBinaryOperand::Integer(a, b) => a.partial_cmp(&b),
-            NumberBinaryOperand::Rational(a1, a2, b1, b2) => (a1 * b2).partial_cmp(&(b1 * a2)),
+            NumberBinaryOperand::Rational(a1, a2, b1, b2) => {
+                // denominators are positive, so the order of a1/a2 and b1/b2 is that of the cross products
+                let (lhs, rhs) = (a1 as i64 * b2 as i64, b1 as i64 * a2 as i64);
+                if (a2 < 0) != (b2 < 0) {
+                    rhs.partial_cmp(&lhs)
+                } else {
+                    lhs.partial_cmp(&rhs)
+                }
+            }
             NumberBinaryOperand::Real(a, b) => a.partial_cmp(&b),
         }
     }
